@@ -5,9 +5,10 @@
   seeded.py table                      print which checks catch which changes
 """
 import json, os, shutil, subprocess, sys, time
-ROOT = "/verif"
+ROOT = os.environ.get("SEED_ROOT", "/verif")
+REPO = os.environ.get("SEED_REPO", "/repo")   # a scratch worktree when the batch must not disturb /repo
 SEEDED = os.path.join(ROOT, "seeded")
-ENV = dict(os.environ, GOFLAGS="-mod=mod", GOPROXY="off", GOSUMDB="off", GOTOOLCHAIN="local")
+ENV = dict(os.environ, GOFLAGS="-mod=mod", GOPROXY="off", GOSUMDB="off", GOTOOLCHAIN="local", VERIF_REPO=REPO)
 
 
 def sh(cmd, cwd=None, timeout=3000):
@@ -71,11 +72,11 @@ def cmd_run(sid, prop=None):
     dst = os.path.join(SEEDED, sid)
     meta = json.load(open(os.path.join(dst, "meta.json")))
     prop = prop or meta["property"]
-    rc, out = sh(["git", "-C", "/repo", "status", "--porcelain"])
+    rc, out = sh(["git", "-C", REPO, "status", "--porcelain"])
     if out.strip():
-        print("refusing: /repo has local changes")
+        print("refusing: %s has local changes" % REPO)
         return 2
-    rc, out = sh(["git", "-C", "/repo", "apply", os.path.join(dst, "patch.diff")])
+    rc, out = sh(["git", "-C", REPO, "apply", os.path.join(dst, "patch.diff")])
     if rc != 0:
         print("patch does not apply", out)
         return 2
@@ -90,7 +91,8 @@ def cmd_run(sid, prop=None):
         meta.setdefault("checks", {})[prop] = {"verdict": verdict, "exit": rc, "wall_s": round(time.time() - t0), "detail": [f[:500] for f in first]}
         print(sid, prop, verdict, first[:1])
     finally:
-        sh(["git", "-C", "/repo", "checkout", "--", "."])
+        sh(["git", "-C", REPO, "checkout", "--", "."])
+        sh(["git", "-C", REPO, "clean", "-fdq"])
     json.dump(meta, open(os.path.join(dst, "meta.json"), "w"), indent=1, ensure_ascii=False)
     return 0
 
